@@ -692,6 +692,42 @@ class LocSlice(Op):
         return replace(ins[0][1], rowset="")
 
 
+@register("loc_list", kinds=("frame", "series"), weight=0.5, tags={"loc"})
+class LocList(Op):
+    """x.loc[[labels]] with labels that exist; dask needs known divisions (documented KeyError otherwise),
+    so without them the dask side selects the same rows with index.isin."""
+
+    @staticmethod
+    def gen(draw, ins):
+        x, f = ins[0]
+        if not f.indexed or not f.ordered or len(x) == 0:
+            return None
+        if not x.index.is_monotonic_increasing or x.index.hasnans or isinstance(x.index, pd.MultiIndex):
+            return None
+        if x.index.dtype.kind not in "iuf":
+            return None
+        s = st()
+        vals = sorted(set(x.index.tolist()))
+        labels = draw(s.lists(s.sampled_from(vals), min_size=1, max_size=6))
+        if draw(s.booleans()):
+            labels = sorted(labels)
+        return {"labels": labels}
+
+    @staticmethod
+    def apply(side, objs, args):
+        x = objs[0]
+        if side == "dask" and not x.known_divisions:
+            return x[x.index.isin(sorted(set(args["labels"])))]
+        return x.loc[args["labels"]]
+
+    @staticmethod
+    def flags(ins, args, out):
+        f = ins[0][1]
+        lab = args["labels"]
+        asc = lab == sorted(set(lab))
+        return replace(f, rowset="", ordered=f.ordered and asc)
+
+
 @register("head", kinds=("frame", "series"), weight=1.5, tags={"headtail"})
 class Head(Op):
     @staticmethod
@@ -1328,6 +1364,12 @@ def precondition(opname, ins, args):
         x = vals[0]
         if not (fl[0].indexed and fl[0].ordered) or len(x) == 0 or not x.index.is_monotonic_increasing or x.index.hasnans or x.index.dtype.kind not in "iuf":
             return False
+    if opname == "loc_list":
+        x = vals[0]
+        if not (fl[0].indexed and fl[0].ordered) or len(x) == 0 or not x.index.is_monotonic_increasing or x.index.hasnans or x.index.dtype.kind not in "iuf":
+            return False
+        if isinstance(x.index, pd.MultiIndex) or not set(args["labels"]) <= set(x.index.tolist()):
+            return False
     if opname == "nlargest":
         x = vals[0]
         c = args["col"]
@@ -1573,11 +1615,15 @@ class MergeLR(Op):
         lb = [c for c in cols_of(b, ("int",)) if c != "rid"]
         if not la or not lb:
             return None
-        return {"left_on": draw(s.sampled_from(la)), "right_on": draw(s.sampled_from(lb)), "how": draw(s.sampled_from(["inner", "left", "right", "outer"])), "indicator": draw(s.sampled_from([False, False, True]))}
+        return {"left_on": draw(s.sampled_from(la)), "right_on": draw(s.sampled_from(lb)), "how": draw(s.sampled_from(["inner", "left", "right", "outer"])), "indicator": draw(s.sampled_from([False, True, "side"])),
+                "broadcast": draw(s.sampled_from([None, None, True, False])), "shuffle_method": draw(s.sampled_from([None, "tasks"]))}
 
     @staticmethod
     def apply(side, objs, args):
-        return objs[0].merge(objs[1], left_on=args["left_on"], right_on=args["right_on"], how=args["how"], indicator=args["indicator"], suffixes=("_p", "_q"))
+        kw = {}
+        if side == "dask":
+            kw = {"broadcast": args.get("broadcast"), "shuffle_method": args.get("shuffle_method")}
+        return objs[0].merge(objs[1], left_on=args["left_on"], right_on=args["right_on"], how=args["how"], indicator=args["indicator"], suffixes=("_p", "_q"), **kw)
 
     @staticmethod
     def flags(ins, args, out):
